@@ -51,6 +51,39 @@ def replay(prop, path):
             print("VIOLATION property=%s replay=%s" % (prop, path))
             return 1
         return 0
+    if rec.get("replay_kind") == "compile-pair":
+        from . import compile_mon as cm
+        import os
+        with build.Lock():
+            build.snapshot()
+            art = cm.artifacts(rec.get("macro_profile", "macrodev"))
+            d = os.path.join(cm.CM, "replay")
+            os.makedirs(d, exist_ok=True)
+            path = os.path.join(d, "replay.rs")
+            build.write_if_changed(path, "\n".join(cm.HEADER) + "\n" + rec["program"] + "\n")
+            diags = cm.rustc_batch(path, art, d)
+        lines = rec["program"].split("\n")
+        off = len(cm.HEADER)
+        def part_of(line):
+            cur = None
+            for k, l in enumerate(lines):
+                if l.strip().startswith("pub mod pos"):
+                    cur = "pos"
+                elif l.strip().startswith("pub mod neg"):
+                    cur = "neg"
+                if k + 1 + off >= line:
+                    return cur
+            return cur
+        failed = set()
+        for m in diags:
+            for ln in cm.diag_lines(m, "replay.rs"):
+                failed.add(part_of(ln))
+        print("recompiled both twins in one crate: parts with errors: %s" % sorted(x for x in failed if x))
+        violated = ("pos" in failed) if rec.get("expect") == "pos-accept" else ("neg" not in failed)
+        if violated:
+            print("VIOLATION property=%s replay=%s" % (prop, replay_path))
+            return 1
+        return 0
     if rec.get("replay_kind") == "compile":
         from . import compile_mon as cm
         import os
